@@ -1,9 +1,9 @@
 package rules
 
 import (
-	"strings"
 	"go/ast"
 	"go/types"
+	"strings"
 
 	"gengoverif/checker/internal/core"
 )
@@ -124,7 +124,7 @@ func funcValueUses(p *core.Program, obj *types.Func) []ast.Node {
 // opaqueHelpers: private helpers that a rule treats as one step and therefore
 // wants to keep seeing as a call in flattened views (one line of reason each).
 var opaqueHelpers = map[string]string{
-	"pkg/types.newPkg":       "the package-record constructor is a unit of C12/C13 (comment indexes, tables) and of the C13.R3 ordering rule (construction after registration)",
+	"pkg/types.newPkg": "the package-record constructor is a unit of C12/C13 (comment indexes, tables) and of the C13.R3 ordering rule (construction after registration)",
 }
 
 // pipelineStage: h (transitively, through static calls) invokes user code through the
